@@ -99,6 +99,9 @@ const (
 	E_NewKeysAndCertFromParts = 161
 	E_ELSSplit = 170
 	E_BlindingDate = 171
+	E_LS2Validate = 180
+	E_NewLS2Check = 181
+	E_NewELSCheck = 182
 )
 
 var entryNames = map[int]string{
@@ -199,4 +202,7 @@ var entryNames = map[int]string{
 	161: "NewKeysAndCertFromParts",
 	170: "ELSSplit",
 	171: "BlindingDate",
+	180: "LS2Validate",
+	181: "NewLS2Check",
+	182: "NewELSCheck",
 }
